@@ -6,7 +6,6 @@ sys.path.insert(0, os.path.join(HERE, "..", "rules"))
 import registry
 
 NA_FIXED = {
-    "C03": "position-exact rewrite semantics is cursor arithmetic over all rule x word pairs; no necessary condition is visible in code shape beyond what the type checker enforces (static analysis not applicable, see DESIGN.md §3 C03)",
 }
 ALL = ["C%02d" % i for i in range(1, 21)]
 
